@@ -311,7 +311,7 @@ def trxcon_hostile(ctx, rounds):
             had = r["q"]
             if r["sent"]:
                 text = list(bytes(r["sent"][0])[:-1])
-                cev.append(dict(e="enq", texts=[text], crit=[what != "SETTA"], status=status(r), sent=r["sent"]))
+                cev.append(dict(e="enq", texts=[text], crit=[what != "SETTA"], status=status(r), sent=r["sent"], h1=[]))
                 head = bytes(r["sent"][0])
             else:
                 # queued behind a command still in flight: its text becomes visible later; keep the model simple
